@@ -129,6 +129,9 @@ def stmt(z, j, e, w, cni, N0, method, rng, tight=True, history=None):
     if method: skw["method"] = method
     N0c = None if N0 is None else np.array(N0, dtype=float)
     res, call = basiccorr.run_basic(element=el, j=j, e_kin=e, t_max=t_max, dr_fwhm=w, N_initial=N0c, CNI=cni, solver_kwargs=dict(skw))
+    got = {k_: call["kwargs"].get(k_) for k_ in skw}
+    if got != skw:
+        add("solver_kwargs", f"solver called with {got} although {skw} was requested")
     J = basiccorr.jac_of(call, n)
     if not np.allclose(J, Jind, rtol=1e-9, atol=0) or ((J == 0) != (Jind == 0)).any():
         add("jacobian", f"Jacobian used by basic_simulation differs from (j 1e4/e)[EI+RR{'+DR' if w else ''}] assembled from the package's own vectors")
